@@ -98,6 +98,9 @@ def check_C08(tier, seed):
             k += 1
     for i in range(n_rand):
         scripts.append(scen.lifecycle_random(r, i))
+    # connections that end after the client has moved: what was filed under either address goes
+    for i in range(200 if quick else 1500):
+        scripts.append(scen.lifecycle_migrated(r, len(scripts)))
     mcs = [("MC_Lifecycle.tla", "MC_Lifecycle.cfg"),
            ("LifecyclePair.tla", "MC_LifecyclePair.cfg" if quick else "MC_LifecyclePair5.cfg")]
     res = generic("C08", tier, seed, mcs, scripts,
